@@ -125,6 +125,12 @@ func genLog(g *genCfg, name string, kind int) *LogRecord {
 		l.TZOffset = int16(VerifU16())
 		l.Message = symString(VerifIntRange(0, 2))
 	case 2: // hashes absent
+		if VerifChoose(2) == 1 {
+			// an entry whose only non-zero field is the time zone offset: still an entry, not a deletion
+			l.TZOffset = int16(VerifU16())
+			VerifAssume(l.TZOffset != 0)
+			break
+		}
 		if g.idxSmall {
 			l.Time = uint64(VerifU8() & 0x7f)
 		} else {
